@@ -395,6 +395,17 @@ func c09Oracle(tables map[string]int) func(w *fsx.World) []fsx.Violation {
 				}
 			}
 		}
+		// I3 (freshness): a reader that has been granted the table and has not given it back read what the table file contains
+		// ("while a process is reading it none can start writing": the contents cannot have changed since the grant)
+		for _, p := range w.Procs {
+			if l := p.Log(); len(l) > 0 && strings.HasPrefix(l[len(l)-1], "obs:R-read ") {
+				f := strings.SplitN(strings.TrimPrefix(l[len(l)-1], "obs:R-read "), " ", 2)
+				content, _ := strconv.Unquote(f[1])
+				if disk, ok := w.Files[f[0]]; ok && disk != content {
+					out = append(out, fsx.Violation{Sig: "I3:granted-reader-read-other-than-the-table-contains", Msg: fmt.Sprintf("%s holds the read lock of %s and read %q from its handler; the table file contains %q", p.Name, f[0], content, disk)})
+				}
+			}
+		}
 		if !w.Final {
 			return out
 		}
@@ -620,6 +631,7 @@ func c09Setup(tables map[string]int) func(dir string) {
 }
 
 type c09Payload struct {
+	Family   string   `json:"family,omitempty"`
 	Scenario string   `json:"scenario"`
 	Schedule []string `json:"schedule"`
 	Trace    []string `json:"trace"`
@@ -734,6 +746,12 @@ func c09Replay(c *core.Ctx, payload json.RawMessage) {
 	var p c09Payload
 	if err := json.Unmarshal(payload, &p); err != nil {
 		fmt.Println(err)
+		return
+	}
+	if p.Family != "" {
+		if !c09FamReplay(c, p) {
+			fmt.Println("unknown family", p.Family)
+		}
 		return
 	}
 	for _, s := range c09Scenarios() {
